@@ -249,7 +249,13 @@ class Session:
             self._register(op["f"], "function", function)
 
     def _run_detectors(
-        self, tealer: Any, function: Any, runs: Optional[List[str]], ev: Dict[str, Any], isolate: bool = False
+        self,
+        tealer: Any,
+        function: Any,
+        runs: Optional[List[str]],
+        ev: Dict[str, Any],
+        isolate: bool = False,
+        post_filter: Optional[str] = None,
     ) -> None:
         full = ev["i"] in self.want_full
         with Quiet():
@@ -298,6 +304,11 @@ class Session:
         ev["obs"]["dets"] = dets
         ev["obs"]["ctx_after"] = ctx_after
         ev.pop("failed_det", None)
+        if post_filter is not None and runs is None:
+            # what main() does with --filter-paths: the caller narrows the results it was handed
+            for res in results:
+                for out_ in res:
+                    out_.filter_paths(post_filter)
         if full:
             ev["full"] = {"dets": fullobs}
             if function is not None:
@@ -319,7 +330,7 @@ class Session:
         self._side_printers(tealer, op, ev)
         for name in op.get("dets", []):
             tealer.register_detector(self.detectors[name])
-        self._run_detectors(tealer, function, op.get("runs"), ev, bool(op.get("isolate")))
+        self._run_detectors(tealer, function, op.get("runs"), ev, bool(op.get("isolate")), op.get("post_filter"))
 
     def _side_printers(self, tealer: Any, op: Dict[str, Any], ev: Dict[str, Any]) -> None:
         """Printers (and the regex tool) run on the very same Tealer/Teal object before anything is
@@ -362,7 +373,7 @@ class Session:
         if runs is not None:
             runs = [r for r in runs if r in have]
         self._side_printers(tealer, op, ev)
-        self._run_detectors(tealer, function, runs, ev)
+        self._run_detectors(tealer, function, runs, ev, False, op.get("post_filter"))
 
     def op_cli(self, op: Dict[str, Any], ev: Dict[str, Any]) -> None:
         import tealer.__main__ as tmain
